@@ -110,12 +110,12 @@ PROPS['C20'] = dict(
 
 PROPS['C05'] = dict(
   level='proof',
-  verus=[dict(unit='gctrace', min_functions=30), dict(unit='klass', min_functions=2)],
+  verus=[dict(unit='gctrace', min_functions=34), dict(unit='klass', min_functions=2)],
   kani=[dict(crate='trace', harnesses=['proofs::o05_2_dispatch_%s' % k for k in ['channel', 'class', 'closure', 'enumerator', 'fun', 'instance', 'list', 'method', 'native', 'string', 'lybox', 'tuple']],
              kind='bounded', bound='12 of 13 object kinds (Map excluded: generic impl cannot be stubbed), one raw object per kind, unwind 15', timeout=1200, jobs=4, mem_gb=12, assumption_ids=['A-kani', 'A-stub', 'A-bound']),
         dict(crate='gc', harnesses=_GC_C05, kind='bounded', bound='one LyBox, one or two collections, unwind 4', timeout=2400, jobs=3, assumption_ids=['A-kani', 'A-stub', 'A-bound'])],
   explanation='Verus: every trace body reaches every GC-typed field of its struct (contracts generated from the real struct definitions), mark-guarded handles and the 13-kind dispatch; Kani (bounded): the real dispatch and the real Allocator sweep',
-  not_decided=['the root set of a running compilation (impl TraceRoot for Compiler; the one of Vm IS decided), natives\' push_root discipline, allocate/allocate_obj rooting of the in-flight object, "same output under every collection schedule"',
+  not_decided=['natives\' push_root discipline (temporary roots around allocations in natives and in the compiler), allocate/allocate_obj rooting of the in-flight object, "same output under every collection schedule"',
                'the tri-colour invariant over the whole heap (marked objects have their children traced before the sweep) is an induction over the object graph, not stated',
                'A-alias: Class.init aliases an entry of Class.methods (exempted field in gctrace): proved as an invariant of add_method / inherit in the klass unit under the premise that the name "init" is interned once (C09)', 'ChannelWaiter.waiter (Box<dyn TraceAny>) and Value::trace itself (two cfg variants) are leaves of the model'],
 )
